@@ -490,6 +490,11 @@ class Response:
 
         if not _is_ascii_encodable(name):
             raise KeyError('name is not ascii encodable')
+        # NOTE: http.cookies accepts a colon in a cookie name, but it is not a
+        #   token character (RFC 6265, Section 4.1.1), and such a cookie is
+        #   ignored when it comes back in a request.
+        if ':' in name:
+            raise KeyError('name contains a reserved character')
         if not _is_ascii_encodable(value):
             raise ValueError('value is not ascii encodable')
 
